@@ -57,6 +57,10 @@ def cases(tier, seed):
             if (hi + k) % 6 == 0:     # file numbers of five and six digits at one level
                 g["file_id_base"] = "mixed"
             cs.append(c)
+    # scale: a box of more than a million cells (8.9 MiB per field) at the start of a cook-and-combine-back pipeline
+    for k in range(1 if tier == "quick" else 3):
+        cs.append({"kind": "hist", "scale": "bigbox", "gen": dict(seed=seed * 23 + 1414 + k, names=["f0", "f1", "f2"]),
+                   "history": ["chef", "combine_sibling"] if k % 2 == 0 else ["combine_sibling", "colander"], "sel_seed": seed * 83 + 1414 + k})
     for k in range(2 if tier == "quick" else 8):     # 2D colander chains
         g = dict(seed=rng.randrange(10 ** 9), ndims=2, nlevels=2 + k % 2, bf=4, names=["f0", "f1", "f2"], base_blocks=(1, 3))
         cs.append({"kind": "hist", "gen": g, "history": ["colander", "colander", "colander"], "sel_seed": seed * 89 + k})
@@ -123,7 +127,9 @@ def run_case(case, work, rec):
         exp = refmodel.from_disk(cur)
         digest = common.sha("chk", case["seed"])
     else:
-        m = gen.gen_model(**case["gen"])
+        m = gen.scale_model(case["scale"], **case["gen"]) if case.get("scale") else gen.gen_model(**case["gen"])
+        if case.get("scale"):
+            rec.count("scale_cases")
         if case.get("long_max"):
             gen.plant_long_max(m, case["gen"]["seed"])
             rec.count("long_maximum_tokens")
